@@ -876,3 +876,70 @@ func runL2(seed int64, n int, dir string, profName string) error {
 	}
 	return nil
 }
+
+var opNames = map[string]bool{"eq": true, "lt": true, "le": true, "ge": true, "gt": true}
+
+func replaySQL(r *tr) (string, string) {
+	ncols, epn, cache, nops := r.i(), r.i(), r.i(), r.i()
+	w := newL2World(ncols, epn, cache, true)
+	stats := map[string]int{}
+	for j := 0; j < nops; j++ {
+		op := &sop{kind: r.next()}
+		switch op.kind {
+		case "conn":
+			op.c = r.i()
+		case "create":
+			op.c, op.ro = r.i(), r.b()
+			r.names()
+			r.names()
+		case "wt":
+			op.c, op.t = r.i(), r.z()
+		case "ins":
+			op.c, op.key = r.i(), r.sval()
+			n := r.i()
+			for k := 0; k < n; k++ {
+				op.vals = append(op.vals, r.sval())
+			}
+			r.names()
+		case "upd":
+			op.c, op.key = r.i(), r.sval()
+			n := r.i()
+			for k := 0; k < n; k++ {
+				if r.next() == "_" {
+					op.mask = append(op.mask, false)
+					op.vals = append(op.vals, sval{tag: 'N'})
+				} else {
+					op.mask = append(op.mask, true)
+					op.vals = append(op.vals, r.sval())
+				}
+			}
+			r.names()
+		case "del":
+			op.c, op.key = r.i(), r.sval()
+			r.names()
+		case "sel":
+			op.c, op.desc = r.i(), r.b()
+			n := r.i()
+			for k := 0; k < n; k++ {
+				op.cons = append(op.cons, scon{op: r.next(), v: r.sval()})
+			}
+			op.limit = r.i()
+		case "begin", "commit", "rollback":
+			op.c = r.i()
+			r.names()
+		case "refresh":
+			op.c = r.i()
+			r.names()
+			r.names()
+		case "version":
+			op.c = r.i()
+		case "vacuum":
+			op.c, op.before = r.i(), r.z()
+			r.names()
+		default:
+			panic("replay: unknown sql op " + op.kind)
+		}
+		w.exec(op, stats)
+	}
+	return w.finish()
+}
